@@ -191,6 +191,13 @@ draw_timeout(void)
 	static const uint64_t t[] = { 0, 0, 1, 999, 1000, 1001, 1500, 2000,
 	    5000, 10000, 10000, 250000, 1000000, 1000001 };
 
+	/*
+	 * Rarely a "never" timeout of 2^31..2^32 seconds (far beyond any clock
+	 * advance here): it must simply never fire; it is cancelled before the
+	 * drain.
+	 */
+	if (vh_chance(&R, 1, 40))
+		return ((vh_chance(&R, 1, 2) ? 3000000000ULL : 4294967295ULL) * 1000000ULL);
 	if (vh_chance(&R, 1, 5))
 		return (vh_below(&R, 20000));
 	return (t[vh_below(&R, sizeof(t) / sizeof(t[0]))]);
@@ -614,6 +621,12 @@ program(uint64_t seed, uint64_t idx)
 	 * Drain: make everything ready, move the clock past every deadline;
 	 * every registration still live must now fire exactly once.
 	 */
+	for (i = 0; i < nregs; i++)
+		if (regs[i].live && regs[i].kind == K_TIMER &&
+		    regs[i].timeout_us > 1000000000000ULL) {
+			regs[i].protected = 0;
+			do_cancel(&regs[i]);
+		}
 	draining = 1;
 	lg("DR\n");
 	simk_p_poll_eintr = 0;
